@@ -37,7 +37,7 @@ def run(repo_root, grp, tier='quick', seed=0):
         cmd = ['cargo', 'test', '--offline', '--lib', '--release'] if grp.get('release') else ['cargo', 'test', '--offline', '--lib']
         for ft in grp.get('features', []):
             cmd += ['--features', ft]
-        cmd += ['--'] + (['verif_bounded::%s' % t for t in grp.get('filters', [])] or ['verif_bounded::'])
+        cmd += ['--'] + ((['verif_bounded::%s' % t for t in grp.get('filters', [])] + grp.get('raw_filters', [])) or ['verif_bounded::'])
         cmd += ['--test-threads', '8', '--nocapture']
         out['cmd'] = 'cd <scratch copy of /repo>/%s && VERIF_TIER=%s %s' % (ek.CRATES[grp['crate']]['dir'], tier, ' '.join(cmd))
         env = dict(os.environ)
@@ -59,7 +59,7 @@ def run(repo_root, grp, tier='quick', seed=0):
             out['tool_error'] = 'build failed: ' + text[-2500:]
             return out
         for t in grp['tests']:
-            m = re.search(r'^test .*verif_bounded::.*\b%s \.\.\. (ok|FAILED)' % re.escape(t), text, flags=re.M)
+            m = re.search(r'^test .*verif_bounded.*\b%s \.\.\. (ok|FAILED)' % re.escape(t), text, flags=re.M)
             if not m:
                 out['status'] = 'tool-error'
                 out['tool_error'] = 'no result for bounded test %s: %s' % (t, text[-1500:])
